@@ -21,7 +21,13 @@ def _add_leak_case(cls, with_start, with_end):
         if with_end:
             cx.assume(cx.t(en) >= 0)
         node = mk_node(cx, cls, "N1", _leak_start_control_name="startctl", _leak_end_control_name="endctl")
-        wn = WN()
+        # the model the leak is added to: whatever its duration, clock and step options are at that moment (they may be changed before the run)
+        import types
+        topt = types.SimpleNamespace(duration=cx.int("duration_when_the_leak_is_added"), hydraulic_timestep=cx.int("hydraulic_timestep"), start_clocktime=cx.int("start_clocktime"),
+                                     report_timestep=cx.int("report_timestep"), pattern_timestep=cx.int("pattern_timestep"), rule_timestep=cx.int("rule_timestep"), pattern_start=0)
+        wn = WN(options=types.SimpleNamespace(time=topt))
+        wn.sim_time = cx.int("sim_time_when_the_leak_is_added")
+        cx.assume(cx.t(topt.duration) >= 0, cx.t(wn.sim_time) >= 0, cx.t(topt.hydraulic_timestep) > 0)
         cx.target(cls.add_leak, node, wn, area, cd, st, en)
 
         def post(out):
